@@ -63,7 +63,10 @@ FlushBoundary(st, host) ==
   LET P == {<<c, j>> \in UNION {{<<c, j>> : j \in Processable(st, c)} : c \in BoundariesOf(st.p, host)} :
                Listeners(st, c) # {} /\ st.inbox[c][j].done /\ ~st.inbox[c][j].racy}
   IN  IF P = {} THEN st
-      ELSE LET x == CHOOSE x \in P : TRUE IN FlushBoundary(CloseTau(ObserveMove(st, x[1], x[2]).s), host)
+      ELSE LET x  == CHOOSE x \in P : TRUE
+               en == st.inbox[x[1]][x[2]]
+               s1 == CloseTau(ObserveMove(st, x[1], x[2]).s)
+           IN  FlushBoundary([s1 EXCEPT !.flushed = Append(@, <<x[1], en.k, en.ref>>)], host)
 
 StepSet0(st0, e) ==
   LET st == IF e.ev \in {"ans", "ansc"} THEN FlushBoundary(st0, e.node) ELSE st0 IN
@@ -107,10 +110,15 @@ StepSet0(st0, e) ==
     \* an observation at a node where the game has no listener is not an effect
     \* on the instance (e.g. a withdrawn alternative still reporting): ignored
     [] e.ev = "observed"  ->
+         LET key == <<e.node, e.kind, e.flows[1]>>
+             F   == {j \in DOMAIN st.flushed : st.flushed[j] = key}
+             \* the record of a delivery that was worked off already when an answer overtook it
+             late == IF F = {} THEN {} ELSE {[st EXCEPT !.flushed = RemoveAt(@, Min(F))]}
+         IN
          IF e.node \in DOMAIN st.inbox /\ Armed(st, e.node)
          THEN {CloseTau(m.s) : m \in {m \in ObsMoves(st) :
-                  m.lab.ev = "observed" /\ m.lab.node = e.node /\ m.lab.arg = <<e.kind, e.flows[1]>>}}
-         ELSE {st}
+                  m.lab.ev = "observed" /\ m.lab.node = e.node /\ m.lab.arg = <<e.kind, e.flows[1]>>}} \cup late
+         ELSE {st} \cup late
     [] e.ev = "determination" -> Matching(st, Lab("determination", e.node, 0))
     [] e.ev = "wait"    -> IF WaitOK(st, e) THEN {st} ELSE {}
     [] e.ev = "fin"     -> IF FinOK(st, e) THEN {st} ELSE {}
